@@ -198,12 +198,16 @@ class Program:
                     inline.inline_unknown(trees, self.unknown_functions, self.norm_report)
                 for _round in range(3):
                     n1 = len(self.norm_report)
+                    inline.inline_nested_unknown(trees, self.norm_report)
                     unextract.inline_constants(trees, self.norm_report)
                     unextract.unextract_variables(trees, self.norm_report)
                     if len(self.norm_report) == n1:
                         break
                     for t in trees.values():
                         canonicalise(t)
+                    # call sites that only now are in statement position (a dispatch table turned into a chain)
+                    if self.unknown_functions:
+                        inline.inline_unknown(trees, self.unknown_functions, self.norm_report)
                 if len(self.norm_report) > n0:
                     self.unknown_functions = refnorm.normalise(trees, self.norm_report)
         for m in self.modules.values():
